@@ -245,7 +245,8 @@ struct HLive : Harness {
               for (int i = 0; i < c.n; i++) for (int j = 0; j < c.p; j++) Ek[i][j] -= tk[i] * pk[j];
             } else {
               if (deg.varexp[k] != deg.varexp[k]) { char m[200]; snprintf(m, sizeof m, "PCA on %s input: explained variance of component %zu (beyond rank %zu) is NaN", deg_name[c.deg], k + 1, rank); o.fail("nan-beyond-rank", m); }
-              else if (fabs(deg.varexp[k]) > 1e-6) { char m[200]; snprintf(m, sizeof m, "PCA: explained variance beyond the rank is %.3g, not zero", deg.varexp[k]); o.fail("variance-beyond-rank", m); }
+              // zero up to what the convergence criterion of the earlier components can leave behind (same tau as C01's bookkeeping)
+              else if (fabs(deg.varexp[k]) > 200.0 * ncomp_eff * sqrt((double)c.n * PCACONVERGENCE)) { char m[200]; snprintf(m, sizeof m, "PCA: explained variance beyond the rank is %.3g, not zero", deg.varexp[k]); o.fail("variance-beyond-rank", m); }
             }
           }
           o.counters["probe.rank_checked"]++;
